@@ -77,7 +77,13 @@ SPEC = {
             "(limit, reads, client setting, opening, outcomes of the push messages)",
     "trusted": ["h11 0.16 byte parser; hpack 4.x decoder accounting; h2 4.4 stream accounting and connection state machine",
                 "hyperframe frame parser + hpack decoder as the independent HTTP/2 client oracle", "random.randint inclusive bounds"],
-    "partial": ["F47 (known): HTTP/2 requests sharing a read with request keep_alive_max_requests+1 are all served "
+    "partial": ["F48 (known): the response of the HTTP/2 request that trips keep_alive_max_requests (and of every stream still unanswered then) is lost - "
+                "close_connection() closes h2's state machine at once (response_at_max_lost for every limit, state and continuation; "
+                "served_answerable_partial + served_answerable_fails_as_is); that h2 refuses every send from then on is assumed of the library and "
+                "compared per read with the response heads that reach the client",
+                "F112 (known): keep_alive_max_requests = 0 over Upgrade: h2c serves two requests (initiate does not compare: extracted "
+                "h2InitiateCompares; keep_alive_max_h2c_count_partial for limits >= 1 + keep_alive_max_h2c_count_fails_as_is)",
+                "F47 (known): HTTP/2 requests sharing a read with request keep_alive_max_requests+1 are all served "
                 "(keep_alive_max_h2_count_partial + keep_alive_max_h2_count_fails_as_is)",
                 "pushed streams count twice against keep_alive_max_requests (counted_once_fails_as_is): the limit is reached earlier, never later"],
     "assumptions": ["requests of the HTTP/1 families carry no Connection: close / HTTP/1.0 (so that every `connection: close` on a "
